@@ -227,6 +227,22 @@ package network
 //@   ensures [plain] len(n.controlNodes) == 0 ==> result == len(n.allNodes) + sumField(n.allNodes, lenOf(NNode.Incoming))
 //@   ensures [modular] len(n.controlNodes) != 0 ==> result == len(n.allNodes) + len(n.controlNodes) + sumField(n.allNodes, lenOf(NNode.Incoming)) + sumField(n.controlNodes, lenOf(NNode.Incoming)) + sumField(n.controlNodes, lenOf(NNode.Outgoing))
 
+// Where the results of an activation are observed: a fresh vector holding the output neurons' activations in list order.
+//@ func (*Network).ReadOutputs
+//@   props C12
+//@   requires n != nil && (forall i :: 0 <= i && i < len(n.Outputs) ==> n.Outputs[i] != nil)
+//@   modifies nothing
+//@   ensures [def] len(result) == len(n.Outputs) && fresh(result) && (forall i :: 0 <= i && i < len(n.Outputs) ==> result[i] == n.Outputs[i].Activation)
+//@   loop 1:
+//@     invariant -1 <= #idx && #idx < len(n.Outputs) && len(outs) == len(n.Outputs) && fresh(outs)
+//@     invariant forall i :: 0 <= i && i <= #idx ==> outs[i] == n.Outputs[i].Activation
+
+//@ func (*FastModularNetworkSolver).ReadOutputs
+//@   props C12
+//@   requires s != nil && solverWF(s)
+//@   modifies nothing
+//@   ensures [def] len(result) == s.outputNeuronCount && fresh(result) && (forall i :: 0 <= i && i < s.outputNeuronCount ==> result[i] == s.neuronSignals[s.sensorNeuronCount + i])
+
 // ---- C06 / C13: node constructors ----------------------------------------------------------------
 //@ func NewNNodeCopy
 //@   props C06
